@@ -253,12 +253,14 @@ pub fn run_case(line: &str) -> String {
     let stop_rx = Arc::new(AtomicBool::new(false));
     let hold_rx = Arc::new(AtomicBool::new(t[1] == "N"));
     let collected: Arc<Mutex<Vec<Vec<u8>>>> = Arc::new(Mutex::new(vec![]));
+    let idle_polls = Arc::new(std::sync::atomic::AtomicU64::new(0));      // times the collector found the socket empty
     let collector = match &recv {
         Recv::Spy(_) => None,
         Recv::Udp(_) | Recv::Unix(_, _) => {
             let stop = stop_rx.clone();
             let hold = hold_rx.clone();
             let col = collected.clone();
+            let idle = idle_polls.clone();
             let sock: Box<dyn Fn(&mut [u8]) -> Option<usize> + Send> = match &recv {
                 Recv::Udp(s) => {
                     let s = s.try_clone().unwrap();
@@ -284,6 +286,7 @@ pub fn run_case(line: &str) -> String {
                             quiet = Instant::now();
                         }
                         None => {
+                            idle.fetch_add(1, Ordering::SeqCst);
                             if stop.load(Ordering::SeqCst) && quiet.elapsed() > Duration::from_millis(25) {
                                 break;
                             }
@@ -416,7 +419,12 @@ pub fn run_case(line: &str) -> String {
     }
     hold_rx.store(false, Ordering::SeqCst);
     if t[1] == "N" {
-        thread::sleep(Duration::from_millis(5));    // let the listener's queue drain before the final flush
+        // let the listener drain its queue before the final flush: until it has found the socket empty twice more
+        let base = idle_polls.load(Ordering::SeqCst);
+        let t0 = Instant::now();
+        while idle_polls.load(Ordering::SeqCst) < base + 2 && t0.elapsed() < Duration::from_secs(5) {
+            thread::sleep(Duration::from_micros(300));
+        }
     }
     // the final drop: client -> Fwd -> Tee -> sink (BufWriter::drop flushes what is left)
     let dropped = catch(move || {
